@@ -404,6 +404,9 @@ func Run(t *tr.W, thorough bool) {
 	if thorough {
 		n *= 4
 	}
+	if n > 60 {
+		n = 60 // every scenario sleeps real time; the search tier must stay within minutes
+	}
 	for i := 0; i < n; i++ {
 		scenSubMgr(t, r)
 		scenBroadcaster(t, r, false)
